@@ -52,6 +52,24 @@ def run(chk, replay=None):
     evs, rej = rc.judge(chk, "C09", rc.C09, cs)
     for i, e in enumerate(evs):
         chk.count(1, ("c09", i) if (e["script"]["fail"] != "none" or e["disc"] >= 0) else None)
+    # client disconnect while the worker is paused in write_soon (output above the high watermark): the worker is
+    # released, the request aborted and the iterable closed - real worker pool under the deterministic scheduler
+    import errno
+    from checks import chan_common as cc
+    P = lambda k: {"k": k, "kind": "plain"}
+    scns = []
+    for la in (0, 1):
+        for how in ("close", "reset"):
+            scns.append(cc.mk([P(1)], lookahead=la, room=10, extra_client=[["read", 5], [how]], drains=False,
+                              apps={1: {"chunks": [40, 40, 40], "cl": "none"}}, adj={"outbuf_high_watermark": 30},
+                              name="producer paused above the watermark, lookahead=%d, client %s" % (la, how)))
+    for e in (errno.EPIPE, errno.EINVAL, errno.ETIMEDOUT):
+        for nth in (2, 3):
+            scns.append(cc.mk([P(1)], room=10, extra_client=[["read", 20], ["read", 20], ["readall"]], drains=False,
+                              faults={"send": [None] * nth + [e]}, apps={1: {"chunks": [40, 40, 40], "cl": "none"}},
+                              adj={"outbuf_high_watermark": 30}, name="producer paused above the watermark, send#%d fails %s" % (nth + 1, errno.errorcode[e])))
+    n_pct, dfs = (500, 2000) if chk.thorough else (50, 250)
+    cc.explore_and_validate(chk, "C09", scns, n_pct, dfs, bound=2, label="paused-producer")
     chk.exhaustive = True
     mid = len(cs) // 3
     chk.sample({"case": cs[mid], "observation": {k: v for k, v in evs[mid]["obs"].items() if k in ("closed", "escaped", "iter_closed", "file_closed", "traceback_on_wire")}})
